@@ -15,6 +15,7 @@ import json
 import os
 import random as _random_mod
 import re
+import inspect
 import subprocess
 import sys
 import time
@@ -194,13 +195,14 @@ class CallResult:
 def call_impl(fn, args, stream="plain", replay_entropy=None, kwargs=None):
     """Run psec.<fn>(*args); record entropy, argument mutation, outcome."""
     f = resolve(fn) if isinstance(fn, str) else fn
+    call_args, call_kwargs = _call_style(fn, f, args, kwargs)
     before = [snapshot(a) for a in args]
     ENT.log = []
     ENT.replay = replay_entropy
     r = CallResult()
     t0 = time.perf_counter()
     try:
-        r.value = f(*args, **(kwargs or {}))
+        r.value = f(*call_args, **call_kwargs)
         r.ok = True
         r.err = None
         r.exc = None
@@ -220,6 +222,33 @@ def call_impl(fn, args, stream="plain", replay_entropy=None, kwargs=None):
     after = [snapshot(a) for a in args]
     r.args_changed = before != after
     return r
+
+
+_CALLNO = [0]
+_SIGS = {}
+
+
+def _call_style(name, f, args, kwargs):
+    """The public functions are called positionally most of the time and, for every fifth call, with their last 1..n
+    arguments passed by keyword (deterministically, by call number): behaviour must not depend on the call style."""
+    if kwargs or not isinstance(name, str) or not args:
+        return args, (kwargs or {})
+    _CALLNO[0] += 1
+    if _CALLNO[0] % 5:
+        return args, {}
+    if name not in _SIGS:
+        try:
+            ps = list(inspect.signature(f).parameters.values())
+            ok = inspect.isfunction(f) and all(p.kind == p.POSITIONAL_OR_KEYWORD for p in ps)
+            _SIGS[name] = [p.name for p in ps] if ok else None
+        except (TypeError, ValueError):
+            _SIGS[name] = None
+    names = _SIGS[name]
+    if not names or len(args) > len(names):
+        return args, {}
+    k = 1 + (_CALLNO[0] // 5) % len(args)
+    cut = len(args) - k
+    return args[:cut], dict(zip(names[cut:len(args)], args[cut:]))
 
 
 def canon_impl(r, as_tokens=None):
@@ -464,6 +493,7 @@ class Case:
     def call(self, fn, *args, op=None, stream="plain", with_entropy=False, compare=True, tok=None):
         """psec.<fn>(*args) on the implementation; same operation as a line for the model."""
         toks = [enc(a) for a in args]
+        _probe_before(fn, args)
         r = call_impl(fn, args, stream=stream)
         self.calls.append({"fn": fn, "args": toks, "entropy": r.entropy.hex(), "stream": stream})
         if r.args_changed:
@@ -474,6 +504,8 @@ class Case:
         self.stream.append(stream)
         if not with_entropy and r.entropy:
             self.impl_fail.append(f"{fn} drew {len(r.entropy)} bytes of OS entropy although it is deterministic")
+        if r.ok and _has_header(r.value):
+            ALIAS_WATCH.append((self, fn, r.value, canon_impl(r, tok), tok))
         if not with_entropy and isinstance(fn, str):
             self.rechecks.append((fn, [copy.deepcopy(a) if isinstance(a, bytearray) else a for a in args], stream, tok, canon_impl(r, tok)))
         r.index = len(self.lines) - 1
@@ -495,6 +527,59 @@ class Case:
         if self.key is not None:
             return self.key
         return hashlib.sha1("\n".join(self.lines).encode()).hexdigest()
+
+
+_PROBENO = [0]
+
+
+def _probe_before(fn, args):
+    """Every seventh call of a public function is preceded by an unjudged call of the same function with one argument spoilt
+    (a text argument gets a bad last character, a bytes argument loses its last byte): whatever the implementation does with
+    the spoilt call - normally reject it - nothing of it may show in the call that follows."""
+    if not isinstance(fn, str) or not args:
+        return
+    _PROBENO[0] += 1
+    if _PROBENO[0] % 7:
+        return
+    k = (_PROBENO[0] // 7) % len(args)
+    a = args[k]
+    if isinstance(a, str):
+        bad = (a[:-1] if a else "") + "X\n"[(_PROBENO[0] // 49) % 2]
+    elif isinstance(a, (bytes, bytearray)):
+        bad = bytes(a[:-1]) if len(a) else b"\x00"
+    else:
+        return
+    spoilt = list(args)
+    spoilt[k] = bad
+    try:
+        call_impl(fn, tuple(copy.deepcopy(x) if isinstance(x, (bytearray, _tr31.Header)) else x for x in spoilt))
+    except RecursionError:
+        raise
+
+
+ALIAS_WATCH = []
+
+
+def _has_header(v):
+    return isinstance(v, _tr31.Header) or (isinstance(v, (tuple, list)) and any(isinstance(x, _tr31.Header) for x in v))
+
+
+def alias_recheck():
+    """Objects the implementation returned earlier (headers from unwrap) must still say what they said when they were returned:
+    a result that changes after later, unrelated calls is aliased to shared mutable state."""
+    n = 0
+    for c, fn, value, want, tok in ALIAS_WATCH:
+        r = CallResult()
+        r.ok, r.value, r.err = True, value, None
+        n += 1
+        try:
+            got = canon_impl(r, tok)
+        except Exception as e:  # noqa: BLE001
+            got = f"<unreadable: {type(e).__name__}>"
+        if got != want:
+            c.impl_fail.append(f"{fn}: the object returned earlier now reads `{got[:120]}`, it read `{want[:120]}` when it was returned (result aliased to shared state)")
+    del ALIAS_WATCH[:]
+    return n
 
 
 def recheck_sample(cases, rng, limit=600):
